@@ -255,42 +255,171 @@ Proof.
   revert NZ. generalize (inject_Z (Z.of_nat (S (length r)))). intros z NZ. field. exact NZ.
 Qed.
 
-Lemma interextra_integral_antisym_lemma g a b :
-  interextra_integral g a b == - interextra_integral g b a.
-Proof. unfold interextra_integral. field. Qed.
+(* ---- the interpolated property: integral = F(upper) - F(lower), F the exact antiderivative *)
+Lemma interextra_integral_antisym_lemma F a b :
+  interextra_integral F a b == - interextra_integral F b a.
+Proof. unfold interextra_integral. ring. Qed.
 
-Lemma interextra_integral_trapezoid g a b :
-  interextra_integral g a b == (g a + g b) / 2 * (a - b).
-Proof. unfold interextra_integral. field. Qed.
+Lemma interextra_integral_additive_lemma F a b c :
+  interextra_integral F a b + interextra_integral F b c == interextra_integral F a c.
+Proof. unfold interextra_integral. ring. Qed.
 
-Lemma interextra_integral_additive_partial_lemma g m k a b c :
-  g a == m * a + k -> g b == m * b + k -> g c == m * c + k ->
-  interextra_integral g a b + interextra_integral g b c == interextra_integral g a c.
+Lemma Qlt_bool_false a b : Qlt_bool a b = false <-> b <= a.
 Proof.
-  intros Ha Hb Hc. unfold interextra_integral. rewrite Ha, Hb, Hc. field.
+  unfold Qlt_bool. rewrite negb_false_iff. apply Qle_bool_iff.
 Qed.
 
-Lemma interextra_additive_within_segment ks pre p q post a b c :
+(* the segment the antiderivative picks first *)
+Lemma antideriv_from_first acc p0 p1 rest g x :
+  x < fst p1 \/ rest = [] ->
+  antideriv_from acc p0 p1 rest g x == acc + (g x + snd p0) / 2 * (x - fst p0).
+Proof.
+  intros [H| ->]; [|reflexivity].
+  destruct rest as [|p2 r]; simpl; [reflexivity|].
+  apply Qlt_bool_iff in H. rewrite H. reflexivity.
+Qed.
+
+Lemma antideriv_from_skip acc p0 p1 p2 r g x : fst p1 <= x ->
+  antideriv_from acc p0 p1 (p2 :: r) g x =
+  antideriv_from (acc + (snd p1 + snd p0) / 2 * (fst p1 - fst p0)) p1 p2 r g x.
+Proof. intro H. simpl. apply Qlt_bool_false in H. now rewrite H. Qed.
+
+(* x lies in the piece (p, q) of the table pre ++ p :: q :: post; the first piece extends to the left,
+   the last one to the right *)
+Definition in_piece (pre post : list knot) (p q : knot) (x : Q) : Prop :=
+  (pre = [] \/ fst p <= x) /\ (post = [] \/ x <= fst q).
+
+Definition hits (g : Q -> Q) (ks : list knot) : Prop := forall k x, In k ks -> x == fst k -> g x == snd k.
+
+Lemma cum_before_cons a pre p : pre <> [] \/ True ->
+  cum_before (a :: pre) p == (snd (hd p pre) + snd a) / 2 * (fst (hd p pre) - fst a) + cum_before pre p.
+Proof.
+  intros _. unfold cum_before. destruct pre as [|b r]; simpl.
+  - ring.
+  - reflexivity.
+Qed.
+
+Lemma antideriv_from_piece pre : forall p0 p1 rest p q post acc g x,
+  p0 :: p1 :: rest = pre ++ p :: q :: post ->
+  fst p0 < fst p1 -> increasing_from (fst p1) rest = true ->
+  hits g (p0 :: p1 :: rest) -> in_piece pre post p q x ->
+  antideriv_from acc p0 p1 rest g x == acc + cum_before pre p + (g x + snd p) / 2 * (x - fst p).
+Proof.
+  induction pre as [|a pre' IH]; intros p0 p1 rest p q post acc g x E H01 Hinc Hg [Hl Hr].
+  - simpl in E. injection E as -> -> ->. unfold cum_before. simpl.
+    destruct post as [|p2 r].
+    + simpl. ring.
+    + destruct Hr as [Hr|Hr]; [discriminate|].
+      destruct (Qlt_le_dec x (fst q)) as [Hlt|Hge].
+      * rewrite antideriv_from_first by (left; exact Hlt). ring.
+      * assert (Hx : x == fst q) by lra.
+        rewrite antideriv_from_skip by exact Hge.
+        assert (Hq2 : fst q < fst p2).
+        { simpl in Hinc. apply andb_true_iff in Hinc. destruct Hinc as [H _]. now apply Qlt_bool_iff. }
+        rewrite antideriv_from_first by (left; lra).
+        assert (G : g x == snd q) by (apply (Hg q x); [right; left; reflexivity | exact Hx]).
+        rewrite G, Hx. field.
+  - simpl in E. injection E as -> E.
+    assert (Hp1 : fst p1 <= fst p).
+    { destruct pre' as [|b pre'']; simpl in E.
+      - injection E as -> _. lra.
+      - injection E as -> E.
+        assert (In p rest) by (rewrite E; apply in_or_app; right; now left).
+        pose proof (inc_In _ _ _ Hinc H). lra. }
+    destruct Hl as [Hl|Hl]; [discriminate|].
+    destruct rest as [|p2 r].
+    { destruct pre' as [|? [|? ?]]; simpl in E; discriminate. }
+    rewrite antideriv_from_skip by lra.
+    simpl in Hinc. apply andb_true_iff in Hinc. destruct Hinc as [H12 Hinc']. apply Qlt_bool_iff in H12.
+    rewrite (IH p1 p2 r p q post _ g x E H12 Hinc').
+    + assert (Hhd : hd p pre' = p1) by (destruct pre'; simpl in E; injection E; intros; subst; reflexivity).
+      assert (C : cum_before (a :: pre') p == (snd p1 + snd a) / 2 * (fst p1 - fst a) + cum_before pre' p).
+      { clear - E. destruct pre' as [|b pre'']; simpl in E.
+        - injection E as -> _. unfold cum_before. simpl. ring.
+        - injection E as -> _. unfold cum_before. simpl. reflexivity. }
+      rewrite C. ring.
+    + intros k y Hk Hy. apply (Hg k y); [right; exact Hk | exact Hy].
+    + split; [right; exact Hl | exact Hr].
+Qed.
+
+(* interp is a morphism for == and hits its knots up to == *)
+Lemma interp_from_compat rest : forall p0 p1 x y, x == y -> interp_from p0 p1 rest x == interp_from p0 p1 rest y.
+Proof.
+  induction rest as [|p2 r IH]; intros p0 p1 x y H; simpl.
+  - now apply seg_compat.
+  - rewrite H. destruct (Qle_bool y (fst p1)); [now apply seg_compat | now apply IH].
+Qed.
+
+Lemma interp_hits ks : strictly_increasing ks = true -> hits (interp ks) ks.
+Proof.
+  intros Hs k x Hk Hx.
+  assert (E : interp ks x == interp ks (fst k)).
+  { destruct ks as [|p0 [|p1 r]]; try discriminate. simpl. now apply interp_from_compat. }
+  rewrite E. now apply interp_hits_knots_lemma.
+Qed.
+
+(* on its piece the table function is the affine function through the two knots *)
+Lemma interp_on_piece ks pre p q post x :
+  ks = pre ++ p :: q :: post -> strictly_increasing ks = true -> in_piece pre post p q x ->
+  interp ks x == seg p q x.
+Proof.
+  intros E Hs [Hl Hr].
+  destruct Hl as [->|Hl].
+  - simpl in E. subst ks. destruct Hr as [->|Hr]; [reflexivity|].
+    simpl. now apply interp_from_first.
+  - destruct Hr as [->|Hr].
+    + destruct (Qlt_le_dec x (fst q)) as [Hlt|Hge].
+      * apply (interp_affine_between_lemma ks pre p q [] x); auto. lra.
+      * now apply (extrapolation_right_lemma ks pre p q x).
+    + now apply (interp_affine_between_lemma ks pre p q post x).
+Qed.
+
+Lemma antideriv_on_piece ks pre p q post x :
+  ks = pre ++ p :: q :: post -> strictly_increasing ks = true -> in_piece pre post p q x ->
+  interextra_antiderivative ks x == cum_before pre p + (seg p q x + snd p) / 2 * (x - fst p).
+Proof.
+  intros E Hs Hp. unfold interextra_antiderivative.
+  pose proof (interp_on_piece ks pre p q post x E Hs Hp) as G.
+  destruct ks as [|p0 [|p1 r]]; try discriminate.
+  destruct (si_cons _ _ _ Hs) as [H01 Hinc].
+  unfold antideriv.
+  rewrite (antideriv_from_piece pre p0 p1 r p q post 0 (interp (p0 :: p1 :: r)) x E H01 Hinc
+             (interp_hits _ Hs) Hp).
+  rewrite G. ring.
+Qed.
+
+(* consistent with the property values: between two limits of one piece (incl. the extrapolated ends) the
+   integral is the exact integral of the affine piece = trapezoid of the property values at the limits *)
+Lemma interextra_integral_piece_lemma ks pre p q post a b :
   ks = pre ++ p :: q :: post -> strictly_increasing ks = true ->
-  fst p <= a <= fst q -> fst p <= b <= fst q -> fst p <= c <= fst q ->
-  interextra_integral (interextra_getter ks) a b + interextra_integral (interextra_getter ks) b c
-  == interextra_integral (interextra_getter ks) a c.
+  in_piece pre post p q a -> in_piece pre post p q b ->
+  interextra_integral (interextra_antiderivative ks) a b
+  == (interextra_getter ks a + interextra_getter ks b) / 2 * (a - b).
 Proof.
-  intros E Hs [Ha1 Ha2] [Hb1 Hb2] [Hc1 Hc2].
+  intros E Hs Ha Hb.
   assert (Hpq : fst p < fst q) by (apply (si_consecutive pre p q post); now rewrite <- E).
-  destruct (seg_affine p q Hpq) as [m [k Hmk]].
-  apply (interextra_integral_additive_partial_lemma _ m k); unfold interextra_getter;
-    rewrite (interp_affine_between_lemma ks pre p q post _ E Hs) by assumption; apply Hmk.
+  unfold interextra_integral, interextra_getter.
+  rewrite (antideriv_on_piece ks pre p q post a E Hs Ha), (antideriv_on_piece ks pre p q post b E Hs Hb).
+  rewrite (interp_on_piece ks pre p q post a E Hs Ha), (interp_on_piece ks pre p q post b E Hs Hb).
+  unfold seg. field. lra.
 Qed.
 
-Definition refuting_table : list knot := [(0, 0); (1, 0); (2, 2)].
-
-Lemma interextra_additive_refuted_lemma :
-  strictly_increasing refuting_table = true /\
-  ~ (interextra_integral (interextra_getter refuting_table) 2 1 +
-     interextra_integral (interextra_getter refuting_table) 1 0
-     == interextra_integral (interextra_getter refuting_table) 2 0).
-Proof. split; [reflexivity|]. intro H. vm_compute in H. discriminate. Qed.
+(* the antiderivative is 0 at the first knot and grows by one trapezoid per segment *)
+Lemma antideriv_at_knot ks pre p q post :
+  ks = pre ++ p :: q :: post -> strictly_increasing ks = true ->
+  interextra_antiderivative ks (fst p) == cum_before pre p /\
+  interextra_antiderivative ks (fst q) == cum_before pre p + (snd q + snd p) / 2 * (fst q - fst p).
+Proof.
+  intros E Hs.
+  assert (Hpq : fst p < fst q) by (apply (si_consecutive pre p q post); now rewrite <- E).
+  split.
+  - rewrite (antideriv_on_piece ks pre p q post (fst p) E Hs).
+    + rewrite seg_left by exact Hpq. ring.
+    + split; [right; lra | right; lra].
+  - rewrite (antideriv_on_piece ks pre p q post (fst q) E Hs).
+    + rewrite seg_right by exact Hpq. ring.
+    + split; [right; lra | right; lra].
+Qed.
 
 (* ------------------------------------------------------------------ mixtures *)
 Lemma qsum_cons a l : qsum (a :: l) = a + qsum l.
@@ -488,28 +617,15 @@ Proof.
   exact (proj1 (forallb_forall _ _) H t Ht).
 Qed.
 
-(* slope of compressibility.txt = der_compressibility.txt: holds for every library fluid except
-   hydrogen (0.0006 vs 0.000637) - the full-strength statement is refuted by the data *)
+(* slope of compressibility.txt = der_compressibility.txt for every library fluid *)
 Definition compr_consistent (f : fluid_rec) : bool := Qeq_bool (f_compr_slope f) (f_der_compressibility f).
 
-Lemma library_compressibility_partial_lemma f :
-  In f fluid_library -> f_name f <> "hydrogen"%string -> f_compr_slope f == f_der_compressibility f.
+Lemma library_compressibility_lemma f :
+  In f fluid_library -> f_compr_slope f == f_der_compressibility f.
 Proof.
-  intros Hf Hn.
-  assert (H : forallb (fun f => String.eqb (f_name f) "hydrogen" || compr_consistent f) fluid_library = true)
-    by (vm_compute; reflexivity).
-  pose proof (proj1 (forallb_forall _ _) H f Hf) as H1. simpl in H1.
-  apply orb_true_iff in H1. destruct H1 as [H1|H1].
-  - apply String.eqb_eq in H1. contradiction.
-  - now apply Qeq_bool_iff.
-Qed.
-
-Lemma library_compressibility_refuted_lemma :
-  exists f, In f fluid_library /\ ~ f_compr_slope f == f_der_compressibility f.
-Proof.
-  exists fluid_hydrogen. split.
-  - vm_compute. tauto.
-  - intro H. vm_compute in H. discriminate.
+  intros Hf.
+  assert (H : forallb compr_consistent fluid_library = true) by (vm_compute; reflexivity).
+  pose proof (proj1 (forallb_forall _ _) H f Hf) as H1. now apply Qeq_bool_iff.
 Qed.
 
 Lemma library_hhv_lemma f h : In f fluid_library -> f_hhv f = Some h -> 0 < h.
@@ -532,5 +648,5 @@ Proof. split; vm_compute; reflexivity. Qed.
 
 (* ------------------------------------------------------------------ create_pipe(std_type) copies the library parameters *)
 Lemma std_types_reach_pipes_lemma :
-  forallb (reaches_unchanged create_pipe_std_columns retrieve_u_writes) pipe_library = true.
+  forallb (reaches_unchanged create_pipe_std_columns retrieve_u_writes retrieve_u_default) pipe_library = true.
 Proof. vm_compute. reflexivity. Qed.
